@@ -430,12 +430,31 @@ def ssign(a):
     return _simp(z3.If(a > 0, one, z3.If(a < 0, -one, zero)))
 
 
+def _exact_log_bounds(a):
+    """(floor, ceil) of log_b(c) for an application log2(c) / log10(c) with a concrete rational c > 0, else None"""
+    if z3.is_app(a) and a.num_args() == 1 and a.decl().name() in ('log2', 'log10') and z3.is_rational_value(a.arg(0)):
+        base = 2 if a.decl().name() == 'log2' else 10
+        c = fr(a.arg(0))
+        if c <= 0:
+            return None
+        k = 0
+        while Fraction(base) ** k < c:
+            k += 1
+        while Fraction(base) ** k > c:
+            k -= 1
+        return (k, k) if Fraction(base) ** k == c else (k, k + 1)          # base^k < c < base^(k+1)
+    return None
+
+
 def sfloor(a):
     a = N(a)
     if is_int_like(a):
         return a
     if is_num(a):
         return math.floor(fr(a))
+    b = _exact_log_bounds(a)
+    if b is not None:
+        return b[0]
     return _simp(z3.ToInt(a))
 
 
@@ -445,6 +464,9 @@ def sceil(a):
         return a
     if is_num(a):
         return math.ceil(fr(a))
+    b = _exact_log_bounds(a)
+    if b is not None:
+        return b[1]
     c = _simp(-z3.ToInt(-a))
     if z3.is_app(a) and a.decl().name() == 'log2' and a.num_args() == 1 and is_z3(c):
         # ceil(log2 t) is the unique c with 2^(c-1) < t <= 2^c  (t >= 1): ties the uninterpreted log2 to pow2
@@ -815,7 +837,7 @@ def pow2(k):
         return 2 ** k if k >= 0 else Q(Fraction(1, 2 ** (-k)))
     p = F_POW2(k)
     c = ctx()
-    c.fact(z3.Implies(k >= 0, p >= 1), key=('pow2', k.get_id()))
+    c.fact(z3.And(z3.Implies(k >= 0, p >= 1), z3.Implies(k >= 1, p == 2 * F_POW2(k - 1))), key=('pow2', k.get_id()))
     j = z3.Int('pw2j')
     c.fact(z3.And(F_POW2(0) == 1, z3.ForAll([j], z3.Implies(j >= 0, F_POW2(j + 1) == 2 * F_POW2(j)), patterns=[F_POW2(j + 1)])),
            key=('pow2-def',))
@@ -848,6 +870,12 @@ def spow(a, b):
         raise EngineError('complex ** non-integer not modelled')
     if is_num(a) and fr(a) == 2 and is_int_like(b):
         return pow2(b)
+    if is_num(a) and fr(a) == 2 and is_z3(b) and z3.is_app(b) and b.decl().kind() == z3.Z3_OP_DIV:
+        # 2 ** (ln(x) / ln(2)) = x  (A4; written this way in eqsig to recover a length)
+        num, den = b.arg(0), b.arg(1)
+        if z3.is_app(num) and num.decl().name() == 'ln' and z3.is_app(den) and den.decl().name() == 'ln' and \
+                z3.is_rational_value(den.arg(0)) and fr(den.arg(0)) == 2:
+            return num.arg(0)
     if is_num(b):
         e = fr(b)
         if e == Fraction(1, 2):
